@@ -318,6 +318,10 @@ package transport
 // multipart reader captures r.Body); every temporary file that was created has a deferred removal registered
 // before anything else can fail (ghost counters created/scheduled); gate as for the other transports.
 //@ func (MultipartForm).Do [C10,C03,C09,C05]
+// upload limits: a file is buffered in memory only when the request's length is known and below MaxMemory
+//@   ghost mm = 0 - 1
+//@   at `f.maxMemory()` ghost mm = callres0
+//@   at! `io.ReadAll(part)` requires r.ContentLength >= 0 && r.ContentLength < mm
 //@   replay httpContentType.go.tmpl for writeHeaders
 // C09: no body before the response headers (negotiated Content-Type, configured headers) are in place
 //@   callsite writeJson: requires calls(writeHeaders) >= 1
